@@ -348,5 +348,6 @@ def run(ctx):
     rule_consumed(ctx, cd)
     C01.rule_errprop(ctx, cd, "des", "R-C02-ERRPROP")
     _codec.rule_zero_cost(ctx, pyfront.PyIndex(ctx.root), "R-C02-ZEROCOST")
+    _codec.rule_std_width(ctx, pyfront.PyIndex(ctx.root), "R-C02-STDWIDTH")
     _codec.rule_offset_sets(ctx, cd, "des", "R-C02-OFFSET-SET")
     _codec.rule_padding(ctx, cd, "des", "R-C02-PADDING")
